@@ -122,6 +122,7 @@ func (p *c14) Gen(seed uint64, i int, tier string) (any, bool) {
 		}
 	}
 	stored.NonceSuffix = string(sfx)
+	stored.LoginPrompts = sim.Pick(r, LoginPromptSets)
 	stored.CramChallenge = fmt.Sprintf("<%d.%d@%s>", r.Intn(100000), r.Intn(1<<30), "mx.sim.example")
 	pu, pp := user, pass
 	sc.Equal = r.Chance(1, 2)
